@@ -84,12 +84,14 @@ def cases(tier, seed):
     memory cells of the shape: 'c' / 'e' / '-'"""
     rnd = random.Random(seed)
     out = []
-    widths = [32, 8] if tier == 'quick' else [32, 8, 16, 64]
+    widths = [32, 8, 64, 16] if tier == 'quick' else [32, 8, 16, 64]
     for n in widths:
-        sh = G.rule_templates(n) + G.depth1(n, rich=True)
+        # quick tier at 16 / 64 bits: only the n-ary arithmetic shapes (constants folded with partly symbolic operands)
+        narrow = tier == 'quick' and n in (16, 64)
+        sh = [] if narrow else G.rule_templates(n) + G.depth1(n, rich=True)
         a, b, c = ('id', 'a', n), ('id', 'b', n), ('id', 'c', n)
         K = ('int', 0, n)
-        if n in (8, 16, 32):
+        if n in (8, 16, 32) and not narrow:
             for op in LIFTER_OPS2:
                 if ('16' in op and n != 16) or ('32' in op and n != 32) or ('08' in op and n != 16):
                     if op not in ('bsf', 'bsr', '!'):
@@ -111,7 +113,10 @@ def cases(tier, seed):
             sh.append(('op', op, (a, b, c)))
             sh.append(('op', op, (a, b, c, K)))
             sh.append(('op', op, (a, ('op', op, (b, c)))))
-        if n >= 8:
+            if narrow:
+                sh.append(('op', op, (a, K)))
+                sh.append(('op', op, (a, b)))
+        if n >= 8 and not narrow:
             p = ('id', 'p', 32)
             sh.append(('op', '+', (('mem', p, n), a)))
             sh.append(('mem', ('op', '+', (p, ('int', 0, 32))), n))
@@ -608,7 +613,7 @@ def main(argv=None):
     cov['rule'] = 'a program = (expression shape, binding kind per identifier, binding kind of its memory cells); non-trivial = at least one path proved'
     cov['functions_encoded'] = ['miasmx.expression.expression_eval_abstract:eval_abs.eval_expr/eval_expr_no_cache/eval_ExprId/eval_ExprMem(exact)/eval_ExprOp/'
                                 'eval_op_*/eval_ExprCond/eval_ExprSlice/eval_ExprCompose, mpool', 'expression_helper:expr_simp']
-    cov['bounds'] = ('rule templates + depth-1 shapes + lifter operators, widths 32/8 (quick) or 8/16/32/64; bindings const/expression/identifier/absent; '
+    cov['bounds'] = ('rule templates + depth-1 shapes + lifter operators, widths 32/8 and the n-ary arithmetic shapes at 16/64 (quick) or 8/16/32/64; bindings const/expression/identifier/absent; '
                      'memory cells bound at the exact address only (overlap is C07); division operators constrained only where the CPU does not fault')
     if cov['proved'] == 0:
         herr.append('vacuous: nothing proved')
